@@ -29,20 +29,22 @@ func (a *config) MergeSpoc(d deviceconf.Config) deviceconf.Config {
 				errlog.Abort("Must not redefine chain %q of table %q from rawdata",
 					cName, tName)
 			}
+			// Rules are prepended per default.
+			// Rules marked with [APPEND] are added before trailing DROP lines.
+			// Keep order of added rules.
+			prependPos := 0
+			appendPos := len(aChain.rules)
+			for appendPos > 0 && aChain.rules[appendPos-1].pairs["-j"] == "DROP" {
+				appendPos--
+			}
 			for _, ru := range bChain.rules {
-				i := 0
 				if ru.append {
-					// Append before last non DROP line.
-					i = len(aChain.rules)
-					for i > 0 {
-						if aChain.rules[i-1].pairs["-j"] == "DROP" {
-							i--
-						} else {
-							break
-						}
-					}
+					aChain.rules = slices.Insert(aChain.rules, appendPos, ru)
+				} else {
+					aChain.rules = slices.Insert(aChain.rules, prependPos, ru)
+					prependPos++
 				}
-				aChain.rules = slices.Insert(aChain.rules, i, ru)
+				appendPos++
 			}
 		}
 	}
